@@ -198,7 +198,11 @@ def check(args):
             else:
                 report.harness_errors.append(f"pair {pv['a']} ; {pv['b']} differed inside the sweep but neither alone nor after the preceding calls: {json.dumps(pv)[:500]}")
     # ---- triage
-    for sig, seed_or_spec in sorted(first_by_sig.items(), key=lambda kv: kv[0])[:8]:
+    listed = {sig for sig in first_by_sig if report.match_known(sig) is not None}
+    for sig in sorted(listed):
+        report.add(sig, "-", "recorded finding")  # nothing to shrink or confirm again
+    unlisted = sorted(((sig, sp) for sig, sp in first_by_sig.items() if sig not in listed), key=lambda kv: kv[0])
+    for sig, seed_or_spec in unlisted[:8]:
         spec = seed_or_spec if isinstance(seed_or_spec, dict) else c14.gen_spec(seed_or_spec)
         small, trials = minimize(spec, sig)
         path, v, err = confirm_and_write(small, sig, "min")
@@ -208,8 +212,10 @@ def check(args):
                 report.harness_errors.append(f"violation {sig} {err2}")
                 continue
         report.add(sig, path, summarize(v) + f" [seed {spec.get('seed')}, history of {len(small['steps'])} steps after {trials} shrink trials]")
-    for sig in sorted(first_by_sig)[8:]:
-        report.harness_errors.append(f"more than 8 distinct violation signatures; not triaged: {sig}")
+    for sig, seed_or_spec in unlisted[8:]:
+        spec = seed_or_spec if isinstance(seed_or_spec, dict) else c14.gen_spec(seed_or_spec)
+        path = core.write_replay(PROP, f"{spec.get('seed', 0)}-{core.digest(list(sig))}-untriaged", {"property": PROP, "spec": spec, "sig": list(sig), "note": "more than 8 distinct signatures in this run; not minimised"})
+        report.add(sig, path, f"{sig} [seed {spec.get('seed')}, not minimised]")
     wall = time.time() - t0
     if not args.no_evidence:
         ev = {
